@@ -66,6 +66,7 @@ bool add_result(const Step& s, EF&& a, const std::string& oracle_prefix, const s
 	api_end();
 	FA got; std::string why;
 	if (!read_back(a, got, &why)) { violation(oracle_prefix + ".result-readable", site, why); return false; }
+	observe(got.hash());
 	if (out) *out = got;
 	add_handle(CL(s), std::move(a), got);
 	return true;
